@@ -63,8 +63,14 @@ func genAcceptCase(t *rapid.T) acceptCase {
 		k := rapid.SampledFrom([]int{-1, 0, n - 1, n, n + 1, -n, 2 * n}).Draw(t, "start")
 		var sb strings.Builder
 		e := fmt.Sprint(k)
-		if rapid.Bool().Draw(t, "viaexpr") {
+		endLabel := ""
+		switch rapid.IntRange(0, 3).Draw(t, "viaexpr") {
+		case 0:
 			e = fmt.Sprintf("last+%d", k-(n-1))
+		case 1:
+			// a label on the END line denotes the instruction count: one past the code
+			endLabel = "fin "
+			e = rapid.SampledFrom([]string{"fin", "fin-1", "fin+0", "fin-" + fmt.Sprint(n), "fin+1", "(fin)"}).Draw(t, "finexpr")
 		}
 		useEnd := rapid.Bool().Draw(t, "useend")
 		if !useEnd {
@@ -77,7 +83,9 @@ func genAcceptCase(t *rapid.T) acceptCase {
 			fmt.Fprintf(&sb, "dat #%d, #%d\n", i, i)
 		}
 		if useEnd {
-			fmt.Fprintf(&sb, "end %s\n", e)
+			fmt.Fprintf(&sb, "%send %s\n", endLabel, e)
+		} else if endLabel != "" {
+			fmt.Fprintf(&sb, "%send\n", endLabel)
 		}
 		c.Text = sb.String()
 	case "boundary_length":
